@@ -252,6 +252,7 @@ namespace Givaro {
     {
         // average number of iterations < 13/8*sqrt( Pi*n/2)
         // Sometimes the factor isn't prime -- TO EXPLICIT
+        if (&g == &n) { const Rep nn(n); return Pollard(gen, g, nn, threshold); } // in place: g is reset before n is read
         if (GIVARO_ISLT(n,3)) return g=n;
         if ( isprime(n, _GIVARO_ISPRIMETESTS_) ) return g=n;
         g=1;
@@ -462,6 +463,7 @@ namespace Givaro {
     template<class MyRandIter>
     typename IntFactorDom<MyRandIter>::Rep& IntFactorDom<MyRandIter>::Lenstra(const MyRandIter& gen, Rep& g, const Rep& n, const Rep& B1, const unsigned long curves) const
     {
+        if (&g == &n) { const Rep nn(n); return Lenstra(gen, g, nn, B1, curves); } // in place: g is written before n is read again
         if (n<3) return g=n;
         if ( isprime(n,5) ) return g=n;
         if (isZero(n % 2)) return g=2;
